@@ -109,16 +109,8 @@ VF_HARNESS(reshape_keeps_flat_sequence) {   // reshape to extents with the same 
 }
 #endif
 
-template<int KA> static void t_assign_extents_value() {   // assign(extents, v)
-  Slot a; make_state<KA>(a, 10, 0); SLOT(2);
-  L m[D]; draw_extents<D>(m, 0, NB);
-  (*a).assign(exts<D>(m), T(55));
-  vf_assert(has_extents<D>(*a, m), "assign(extents, v) gives the requested extents");
-  if(prod<D>(m) > 0) { L i[D]; draw_tuple<D>(m, i); vf_assert(val(at<D>(*a, i)) == 55, "assign(extents, v) gives exactly the requested contents"); }
-  a.destroy(); check_all_released();
-}
-VF_HARNESS(assign_extents_value_k1) { t_assign_extents_value<1>(); vf_reach("assign_extents_value_k1"); }
-VF_HARNESS(assign_extents_value_k0) { t_assign_extents_value<0>(); vf_reach("assign_extents_value_k0"); }
+// array::assign(extensions, value) is ill-formed when instantiated at the pinned commit ((*this).array::layout_t::operator= names a private base): not a
+// behavioural question, that clause cannot be exercised.
 
 #if DIM == 1
 template<int KA> static void t_assign_range() {   // assign(first, last) and = {list}
